@@ -175,6 +175,10 @@ func (w *World) harnessAPI(t *Thread, f *Frame, name string, args []Val) (Val, b
 		switch args[0].(string) {
 		case "float-rounding":
 			w.floatRounding = v != 0
+		case "sched-full":
+			w.schedFull = v != 0
+		case "rand-fixed":
+			w.randFixed = v != 0
 		case "race":
 			w.raceOn = v != 0
 		case "step-budget":
